@@ -42,6 +42,12 @@ type Exec struct {
 	noSafety   bool
 	lemmaPkg   string
 	chans      map[string]*chanModel
+	views      map[string]*viewCells
+}
+
+type viewCells struct {
+	set, pos *Cell
+	key      string
 }
 
 type panicExit struct {
@@ -468,6 +474,9 @@ func (ex *Exec) mergeVals(conds []Term, vals []Val, what string) Val {
 		return first
 	}
 	for _, v := range vals {
+		if v.Src != nil {
+			return Val{} // different definitions reach here: the variable is re-bound by a phi or a later definition
+		}
 		if v.Poison != "" {
 			return v
 		}
@@ -502,8 +511,11 @@ func (ex *Exec) mergeVals(conds []Term, vals []Val, what string) Val {
 func (ex *Exec) curVal(v Val, _ State) Term { return v.T }
 
 func sameVal(a, b Val) bool {
-	if a.IsPtr != b.IsPtr || len(a.Tup) != len(b.Tup) || a.Fn != b.Fn || a.Iter != b.Iter {
+	if a.IsPtr != b.IsPtr || len(a.Tup) != len(b.Tup) || a.Fn != b.Fn || a.Iter != b.Iter || a.Src != b.Src {
 		return false
+	}
+	if a.Src != nil {
+		return true
 	}
 	if a.IsPtr {
 		return sameLV(a.P, b.P) && a.NilIf.S == b.NilIf.S
@@ -571,6 +583,10 @@ type nodeState struct {
 	st    State
 }
 
+// nsrc: which SSA value a ghost-viewed variable currently is. Kept inside names under a reserved key prefix so
+// that it travels and merges with them (a Val with only Fn/SSA set would do, but a side table is simpler).
+func srcKey(n string) string { return "\x00src:" + n }
+
 func (f *Frame) mergeIn(n *Node) nodeState {
 	ex := f.ex
 	if len(n.in) == 0 {
@@ -579,6 +595,10 @@ func (f *Frame) mergeIn(n *Node) nodeState {
 	conds := make([]Term, len(n.in))
 	for i, e := range n.in {
 		conds[i] = e.cond
+		if e.from != nil && len(ex.views) > 0 && f.isTop {
+			es := nodeState{reach: e.cond, env: e.env, names: e.names, st: e.st}
+			f.syncViewsForPhis(&es, n.blk, predIndex(n.blk, e.from))
+		}
 	}
 	var ns nodeState
 	if len(n.in) == 1 {
@@ -663,6 +683,9 @@ func (f *Frame) mergeIn(n *Node) nodeState {
 		ns.env[phi] = v
 		if phi.Comment != "" {
 			ns.names[phi.Comment] = v
+			if _, isView := ex.views[phi.Comment]; isView && f.isTop {
+				ns.names[srcKey(phi.Comment)] = Val{Src: phi}
+			}
 		}
 	}
 	return ns
@@ -968,6 +991,10 @@ func (f *Frame) backEdge(l *Loop, e Edge) {
 	names := copyNames(e.names)
 	env := e.env
 	pi := predIndex(l.header, e.from)
+	if len(ex.views) > 0 && f.isTop {
+		es := nodeState{reach: e.cond, env: env, names: names, st: e.st}
+		f.syncViewsForPhis(&es, l.header, pi)
+	}
 	for _, phi := range l.phis {
 		v := f.operand(env, phi.Edges[pi])
 		if phi.Comment != "" {
@@ -1025,7 +1052,7 @@ func (ex *Exec) assumeRange(t Term, typ types.Type, reach Term) {
 }
 
 func (ex *Exec) rangeFacts(t Term, typ types.Type, depth int) []Term {
-	if depth == 0 {
+	if depth == 0 || typ == nil {
 		return nil
 	}
 	var out []Term
